@@ -70,6 +70,9 @@ func osReadSymbols(reader io.ReaderAt) (*gosym.Table, error) {
 
 	syms := make([]gosym.Sym, 0, len(symbols))
 	for i := range symbols {
+		if !hasAddress(&symbols[i]) {
+			continue
+		}
 		syms = append(syms, gosym.Sym{
 			Name:  symbols[i].Name,
 			Value: symbols[i].Value,
@@ -78,4 +81,18 @@ func osReadSymbols(reader io.ReaderAt) (*gosym.Table, error) {
 	}
 	symTable.Syms = syms
 	return symTable, nil
+}
+
+// hasAddress reports whether an ELF symbol names a place in the loaded image.
+// Undefined references, file and section markers and thread-local offsets carry
+// a value that is not an address (usually 0); looking them up must fail.
+func hasAddress(s *elf.Symbol) bool {
+	if s.Section == elf.SHN_UNDEF {
+		return false
+	}
+	switch elf.ST_TYPE(s.Info) {
+	case elf.STT_FILE, elf.STT_SECTION, elf.STT_TLS:
+		return false
+	}
+	return true
 }
